@@ -199,3 +199,21 @@ def replay_batch_lookup_per_id(ctx, rule, events=('TasksAborted', 'TasksCanceled
         ok = all(same_iteration_has(lef, x, look) and x not in lef.reach_from(loop_headers_containing(lef, x)[:1], avoid=look) for x in sites)
         ctx.ob(rule, f'load_event_file|{ev}|job looked up per id', ok,
                f'inside the loop over the ids of a {ev} batch the job is looked up for each id (a lookup hoisted out of the loop applies every id to the job of the first one; pruning removes the ids of completed jobs, so the first id - and the restored state - changes)', lef.loc(sites[0]))
+
+
+def retract_response_leaves_retracting(ctx, rule):
+    """on_retract_response: once the redirect entry of a confirmed retraction was consumed, the task leaves the Retracting
+    state on every path of the iteration (Assigned on the redirect target, or Waiting when nobody claimed it)."""
+    from hqrules.templates import loop_headers_containing, local_field_sources, construct_sites, must_pass
+    from hqrules.core import op_local
+    prog = ctx.prog
+    b = prog.body(REACTOR + 'on_retract_response')
+    rem = [bi for bi, t, c in b.calls() if bi in b.reachable() and (c or '').endswith(('HashMap::remove', 'Map::remove')) and 'redirects' in local_field_sources(b, op_local(t['args'][0]), through_mutation=False)]
+    ctx.floor(rule, len(rem), 1, 'redirects.remove in on_retract_response')
+    leave = [bi for o, bb, bi, s_ in construct_sites(prog, TRS) if bb.path == b.path and s_['rv'][1][2] in ('Waiting', 'Assigned')]
+    hs = loop_headers_containing(b, rem[0])
+    ok, wit = must_pass(b, rem, leave, exits=hs[:1] + list(b.returns()))
+    ctx.ob(rule, 'on_retract_response|confirmed retraction leaves Retracting', bool(leave) and ok,
+           'after redirects.remove(task) every path of the iteration writes Assigned (redirect) or Waiting (no redirect); a task left in Retracting after its source worker confirmed is never dispatched again', b.loc(rem[0]))
+    vs = set(s_['rv'][1][2] for o, bb, bi, s_ in construct_sites(prog, TRS) if bb.path == b.path)
+    ctx.ob(rule, 'on_retract_response|both outcomes', {'Waiting', 'Assigned'} <= vs, f'on_retract_response writes Assigned and Waiting (observed {sorted(vs)})', b.loc())
